@@ -398,6 +398,65 @@ func raceF11(t *testing.T) raceResult {
 	})
 }
 
+// Q1: LIFO backlog, a newcomer pushes itself in while unblock is between its peek and the hand-off: the hand-off must remove the
+// waiter it serves (not whoever is at the head now), so that the newcomer is the one served by the next release.
+func raceQ1(t *testing.T) (res raceResult) {
+	res.Sig = "queue:order:newcomer-lost-during-handoff"
+	synctest.Test(t, func(t *testing.T) {
+		g, st := newGated(1)
+		q := limiter.NewQueueBlockingLimiterFromConfig(g, limiter.QueueLimiterConfig{Ordering: limiter.OrderingLIFO, MaxBacklogSize: 5, MaxBacklogTimeout: 10 * time.Second})
+		holder, _ := q.Acquire(context.Background())
+		type ans struct {
+			l  core.Listener
+			ok bool
+		}
+		d1, d2 := make(chan ans, 1), make(chan ans, 1)
+		go func() { l, ok := q.Acquire(context.Background()); d1 <- ans{l, ok} }()
+		synctest.Wait()
+		time.Sleep(time.Second)
+		g.arm(false, true) // park unblock right after its delegate Acquire succeeded (it has peeked waiter 1)
+		go holder.OnSuccess()
+		c := <-g.parked
+		g.arm(false, false)
+		go func() { l, ok := q.Acquire(context.Background()); d2 <- ans{l, ok} }() // the newcomer: refused by the delegate, pushed at the head
+		synctest.Wait()
+		close(c)
+		synctest.Wait()
+		var first ans
+		select {
+		case first = <-d1:
+		default:
+		}
+		if !first.ok {
+			res.Failed, res.Detail = true, "the peeked waiter was not served by the hand-off"
+		} else {
+			func() { // next release: the newcomer is the only caller waiting
+				defer func() {
+					if r := recover(); r != nil {
+						res.Failed, res.Detail = true, fmt.Sprintf("the release after the hand-off panicked: %v", r)
+					}
+				}()
+				first.l.OnSuccess()
+			}()
+			synctest.Wait()
+			select {
+			case a := <-d2:
+				if a.ok {
+					a.l.OnIgnore()
+				}
+			default:
+				if !res.Failed {
+					res.Failed = true
+					res.Detail = fmt.Sprintf("the caller that queued during the hand-off was not served by the next release (%d backlog entries, %d/1 tokens held)", q.VerifBacklogLen(), st.GetBusyCount())
+				}
+			}
+		}
+		time.Sleep(30 * time.Second)
+		synctest.Wait()
+	})
+	return
+}
+
 // only signatures starting with one of `only` are reported (empty = all)
 var raceOnly []string
 
@@ -442,6 +501,16 @@ func TestC19Races(t *testing.T) {
 	rep := NewReport("C19races")
 	defer rep.Write(t)
 	runRaces(t, rep, raceF8, raceF9a)
+	// a token handed to a waiter that has left must come back: a leaked token shrinks the pool for good
+	raceOnly = []string{"queue:token-leak"}
+	runRaces(t, rep, raceF9c)
+}
+
+func TestC11Races(t *testing.T) {
+	rep := NewReport("C11races")
+	defer rep.Write(t)
+	raceOnly = []string{"queue:order"}
+	runRaces(t, rep, raceQ1)
 }
 
 func TestC02Races(t *testing.T) {
